@@ -45,10 +45,12 @@ func checkC08(c *Ctx) {
 		if op.Kind != opSend {
 			continue
 		}
-		if mi, ok := op.Val.(*ssa.MakeInterface); ok {
-			sent[types.TypeString(mi.X.Type(), func(*types.Package) string { return "" })] = true
-		} else {
+		ts, ok := p.concreteIfaceTypes(op.Val, 3)
+		if !ok || len(ts) == 0 {
 			c.Undecided("R1", "send on evtCh in "+fnKey(op.Fn), op.In.Pos(), "value sent is not a concrete event")
+		}
+		for _, t := range ts {
+			sent[types.TypeString(t, func(*types.Package) string { return "" })] = true
 		}
 	}
 	cases := map[string]bool{}
@@ -361,4 +363,192 @@ func checkC08(c *Ctx) {
 		c.Check(n >= 1, "R5", pr.typ+" commits the configuration", fn.Pos(), "found", "OnSvcConfigUpdate never stores the new configuration")
 	}
 	c.Expect("R5", 4)
+
+	// ---------------- R6: the store hands events over in the order of its state changes
+	c.Rule("R6", "event order, store side: every event is sent by a plain blocking send, on the goroutine of the update handler, under the store's lock")
+	le := newLockEngine(p, configPkg)
+	var cfgMu *types.Var
+	if nt := p.Named(configPkg, "Config"); nt != nil {
+		if st, ok := nt.Underlying().(*types.Struct); ok {
+			for i := 0; i < st.NumFields(); i++ {
+				if ts := types.TypeString(st.Field(i).Type(), nil); ts == "sync.RWMutex" || ts == "sync.Mutex" {
+					cfgMu = st.Field(i)
+				}
+			}
+		}
+	}
+	if cfgMu == nil {
+		c.Unresolved("R6", "mutex of config.Config")
+	}
+	ns := 0
+	for _, op := range p.chanOpsOnField(evtCh) {
+		if op.Kind != opSend {
+			continue
+		}
+		ns++
+		site := fmt.Sprintf("send#%d on evtCh in %s", ns, fnKey(op.Fn))
+		why := ""
+		if op.InSelect != nil {
+			why = "the send is an arm of a select: when the queue is full the event is dropped or takes another route, so the controller no longer sees every state change in order"
+		}
+		for f := op.Fn; f != nil && why == ""; f = f.Parent() {
+			for _, e := range p.callersOf(f) {
+				if _, isGo := e.Site.(*ssa.Go); isGo {
+					why = "the send runs on a goroutine started per event (" + p.Pos(e.Site.Pos()) + "): events reach the controller in scheduler order, not in the order of the state changes (add X, remove X can arrive as remove X, add X)"
+				}
+			}
+		}
+		if why == "" && cfgMu != nil && le.heldAt(op.In)[cfgMu] != lockWrite {
+			why = "the send is not made under the store's write lock: two handlers can change the state in one order and emit in the other"
+		}
+		c.Check(why == "", "R6", site, op.In.Pos(), "plain send, handler goroutine, write lock held", why)
+	}
+	c.Expect("R6", 1)
+
+	// ---------------- R7: the controller applies events one at a time, in order
+	c.Rule("R7", "event order, controller side: everything an event handler does to the processor table happens on the event loop's goroutine (no go statement in the controller's handlers)")
+	ctlFns := map[*ssa.Function]bool{}
+	for f := range p.reachable([]*ssa.Function{handle}, func(g *ssa.Function) bool {
+		return g.Pkg == nil || g.Pkg.Pkg.Path() != modPath+"/controller"
+	}) {
+		if f.Pkg != nil && f.Pkg.Pkg.Path() == modPath+"/controller" {
+			ctlFns[f] = true
+		}
+	}
+	var ctl []*ssa.Function
+	for f := range ctlFns {
+		ctl = append(ctl, f)
+	}
+	sort.Slice(ctl, func(i, j int) bool { return fnKey(ctl[i]) < fnKey(ctl[j]) })
+	for _, f := range ctl {
+		var goAt ssa.Instruction
+		eachInstr(f, func(_ *ssa.BasicBlock, _ int, in ssa.Instruction) {
+			if _, ok := in.(*ssa.Go); ok {
+				goAt = in
+			}
+		})
+		pos := f.Pos()
+		if goAt != nil {
+			pos = goAt.Pos()
+		}
+		c.Check(goAt == nil, "R7", "synchronous: "+fnKey(f), pos, "no go statement", "an event handler continues on a new goroutine: a later event of the same service (remove then re-add, add then config update) is applied while the earlier one is still in progress - e.g. the re-add finds the processor still registered and is ignored, then the old one is deleted: the service ends without a processor")
+	}
+	c.Expect("R7", 8)
+
+	// ---------------- R8: no dead end after a failed creation
+	c.Rule("R8", "no dead end: processor creation is gated on the configuration, so every event kind that carries a configuration attempts the creation when no processor exists")
+	func() {
+		add := p.Func("controller", "(*Controller).addProc")
+		if add == nil {
+			c.Unresolved("R8", "Controller.addProc")
+			return
+		}
+		// creation is gated on the configuration: a creator tests cfg.Validate() before registering
+		gated := false
+		creators := map[*ssa.Function]bool{}
+		for _, ed := range p.callersOf(add) {
+			creators[ed.Caller.Func] = true
+			eachInstr(ed.Caller.Func, func(_ *ssa.BasicBlock, _ int, in ssa.Instruction) {
+				if cc := callOf(in); cc != nil {
+					if g := calleeFn(cc); g != nil && g.Name() == "Validate" {
+						gated = true
+					}
+				}
+			})
+		}
+		if !gated {
+			c.OK("R8", "creation gate", add.Pos(), "processor creation does not depend on the validity of the configuration")
+			return
+		}
+		c.OK("R8", "creation gate", add.Pos(), "creation fails for an invalid configuration (Validate)")
+		reachesCreate := func(fn *ssa.Function) bool {
+			for f := range p.reachable([]*ssa.Function{fn}, func(g *ssa.Function) bool {
+				return g.Pkg == nil || g.Pkg.Pkg.Path() != modPath+"/controller"
+			}) {
+				if creators[f] {
+					return true
+				}
+			}
+			return false
+		}
+		// arms of the type switch whose event carries a configuration
+		eachInstr(handle, func(_ *ssa.BasicBlock, _ int, in ssa.Instruction) {
+			ta, ok := in.(*ssa.TypeAssert)
+			if !ok || !ta.CommaOk {
+				return
+			}
+			pt, ok := ta.AssertedType.(*types.Pointer)
+			if !ok {
+				return
+			}
+			st, ok := pt.Elem().Underlying().(*types.Struct)
+			if !ok {
+				return
+			}
+			carries := false
+			for i := 0; i < st.NumFields(); i++ {
+				if strings.HasSuffix(types.TypeString(st.Field(i).Type(), nil), "service.Config") {
+					carries = true
+				}
+			}
+			if !carries {
+				return
+			}
+			name := types.TypeString(ta.AssertedType, func(*types.Package) string { return "" })
+			site := "event " + name + " without a processor attempts creation"
+			// the arm: blocks dominated by the success edge of the assertion
+			var okEx *ssa.Extract
+			for _, r := range *ta.Referrers() {
+				if ex, isEx := r.(*ssa.Extract); isEx && ex.Index == 1 {
+					okEx = ex
+				}
+			}
+			if okEx == nil {
+				c.Undecided("R8", site, ta.Pos(), "type switch arm not recognised")
+				return
+			}
+			found, good := false, false
+			eachInstr(handle, func(b *ssa.BasicBlock, _ int, x ssa.Instruction) {
+				call, isCall := x.(*ssa.Call)
+				if !isCall || !condEdge(b, okEx, true) {
+					return
+				}
+				h := calleeFn(call.Common())
+				if h == nil || h.Pkg == nil || h.Pkg.Pkg.Path() != modPath+"/controller" {
+					return
+				}
+				found = true
+				// inside the handler: the lookup of the processor and its not-found side
+				var lookupOK *ssa.Extract
+				eachInstr(h, func(_ *ssa.BasicBlock, _ int, y ssa.Instruction) {
+					if ex, isEx := y.(*ssa.Extract); isEx && ex.Index == 1 {
+						if tc, isC := ex.Tuple.(*ssa.Call); isC {
+							if sig := tc.Call.Signature(); sig != nil && sig.Results().Len() == 2 && strings.HasSuffix(types.TypeString(sig.Results().At(0).Type(), nil), "proc.Proc") {
+								lookupOK = ex
+							}
+						}
+					}
+				})
+				eachInstr(h, func(hb *ssa.BasicBlock, _ int, y ssa.Instruction) {
+					cc, isC := y.(*ssa.Call)
+					if !isC {
+						return
+					}
+					g := calleeFn(cc.Common())
+					if g == nil || !(creators[g] || reachesCreate(g)) {
+						return
+					}
+					if lookupOK == nil || condEdge(hb, lookupOK, false) {
+						good = true
+					}
+				})
+			})
+			if !found {
+				c.Undecided("R8", site, ta.Pos(), "no handler call in the arm")
+				return
+			}
+			c.Check(good, "R8", site, ta.Pos(), "the not-found side of the handler reaches the creation", "when the processor of a service could not be created (invalid configuration in the add event), this event - the only carrier of the corrected configuration - is ignored because no processor exists: the service has a valid configuration and endpoints but never gets a processor")
+		})
+	}()
+	c.Expect("R8", 3)
 }
